@@ -756,7 +756,7 @@ def run(ctx):
         'Blake2b / SHA-256 are hashlib (abstract function in the Lean theorems); the legacy PACK of a key is recomputed by a local Micheline forger',
     ]
     cases = regressions()
-    n_random = 1100 if quick else 6000
+    n_random = 1800 if quick else 6000
     for _ in range(n_random):
         cases.append(random_case(ctx.rng, max_len if ctx.rng.random() < (0.4 if quick else 0.15) else 12))
     n_ex = 0
